@@ -10,5 +10,14 @@ def run(ctx):
     if not ctx.thorough:
         cases = ctx.rng.sample(cases, min(len(cases), 150))
     gillcheck.law_check(ctx, drv, False, cases, "Gillespie_SIR")
+    # law after 2 and 3 events (exact enumeration of the real code vs the composed chain): reaches what only shows
+    # after the event lists have been updated (removal of the heaviest item, re-insertion of existing links, ...)
+    gillcheck.k_step_check(ctx, drv, False, gillcheck.kstep_cases(ctx, False, ctx.scale(25, 150)), 2, "Gillespie_SIR")
+    gillcheck.k_step_check(ctx, drv, False, gillcheck.kstep_cases(ctx, False, ctx.scale(10, 60)), 3, "Gillespie_SIR")
+    if any(st.startswith("Gillespie_SIR") for st, _ in ctx.disagreements) and not ctx.violations:
+        # tape correspondence broke without a property-level failure so far: search harder for a concrete failing input
+        gillcheck.k_step_check(ctx, drv, False, gillcheck.kstep_cases(ctx, False, 150), 2, "Gillespie_SIR")
+        if not ctx.violations:
+            gillcheck.k_step_check(ctx, drv, False, gillcheck.kstep_cases(ctx, False, 100), 3, "Gillespie_SIR")
     # fast_SIR on both dispatch paths: first-passage percolation of the delays/durations it drew (shared with C11)
     c11.fast_sir(ctx, drv)
